@@ -232,7 +232,7 @@ func main() {
 			"the empty graph a failed RegisterPipeline may leave behind is not compared (the statement does not speak about it); whether Send to a type without pipelines errors is not compared either",
 			"Close errors are outside this property (C06)",
 		},
-		QuickBudget:    150 * time.Second,
+		QuickBudget:    300 * time.Second,
 		ThoroughBudget: 45 * time.Minute,
 	})
 }
